@@ -319,7 +319,7 @@ func mapOrder(w *core.World, r *core.Report) {
 						}
 						// a sort on the same slice after the loop?
 						sorted := false
-						for _, s := range core.CallsTo(f, sortCalls...) {
+						for _, s := range core.OwnCallsTo(f, sortCalls...) {
 							if len(s.Common().Args) > 0 && core.SameObject(s.Common().Args[0], c) && core.CanFollow(c, s) {
 								sorted = true
 							}
@@ -344,7 +344,7 @@ func ruleSEP(w *core.World, r *core.Report) {
 			continue
 		}
 		n := 0
-		for _, c := range core.Calls(f) {
+		for _, c := range core.OwnCalls(f) {
 			var joined ssa.Value
 			var sepOK bool
 			var sepDesc string
